@@ -17,9 +17,11 @@ from props import C09 as N  # generators and Coq printers of the shared domain v
 PROP = "C01"
 PROPS_FILES = ["Props/C01.v", "Props/C01_refuted.v", "Props/C01_softmax.v", "Props/C01_composed.v"]
 ASSUMPTIONS = [
-  "what the optimisers and one-hot samplers hand to the endpoint tail lies in the relaxed box and satisfies the double-typed "
-  "constraints (relaxed_ok): conclusion of C07 / C08 under their own contracts (SciPy results leaving the domain are discarded "
-  "by modelled code); here a hypothesis of every tail theorem",
+  "composed with C07 / C08 (Props/C01_composed.v): the end-to-end theorems of the six endpoint models carry NO relaxed_ok hypothesis - the optimiser stage (DE, Adam, constant-liar loop, qEI run, the search "
+  "endpoint's own DE loop) and the samplers are the C07 / C08 models run on the one-hot search domain derived from the request's domain, for every PARTIAL acquisition function (NaN = no value) and every draw stream; "
+  "what remains: every constraint has two or more non-zero weights (C08's quantifier); on a constrained domain a strictly interior point of the one-hot search domain (find_interior_point / HiGHS, "
+  "C08_cheby_flag_gives_interior); range contracts of the primitive draws (uniforms in [0,1], Latin-hypercube offsets and permutations, hit-and-run triples, enough of them when padding runs); the Adam update "
+  "vectors and the SciPy multistart result are arbitrary; qEI with pending points => one suggestion. The older tail theorems (Props/C01.v) keep relaxed_ok as a hypothesis; the composed file discharges it",
   "range contracts of numpy.random (choice returns members, choice(replace=False) distinct members, randint / uniform within "
   "bounds), scipy.stats truncnorm / beta stay in their support, the one-hot sampler returns the number of rows asked for",
   "exact arithmetic over Q; float rounding at constraint faces is outside the model: the searcher allows 1e-9 relative slack",
@@ -604,9 +606,10 @@ LEVEL_TEXT = ("Coq theorems on an executable model of the tail of each of the fi
               "feasible relaxed input, every returned point is Admissible, the count rule and the task-cost rule hold; softmax parameters "
               "positive, summing to one, monotone in the cost. The model is tied to the code by in-Coq differential runs of the funnel "
               "functions, by the real views with a stubbed optimiser, and by real endpoint calls whose responses are decided by resp_okb")
-LEVEL_NOTE = ("relaxed_ok of the optimiser output is a hypothesis (C07/C08); range contracts of the random libraries are hypotheses; float "
+LEVEL_NOTE = ("relaxed_ok of the optimiser / sampler output is discharged by composition with C07 / C08 (Props/C01_composed.v; constraints with >= 2 non-zero weights, an interior point on constrained domains); the "
+              "hit-and-run sampler branches and the whole-endpoint glue functions are tied to the code through their parts, constrained optimiser runs through the specification with 1e-9; range contracts of the random libraries are hypotheses; float "
               "rounding at constraint faces is not modelled; the distribution of the softmax draw is not modelled beyond its parameters; "
-              "one known finding (SPE-search without threshold violators raises AssertionError)")
+              "two known findings (SPE-search without threshold violators raises AssertionError; int-constrained short batch)")
 TECHNIQUE = "Coq proof (induction over the component list, composition of C09/C10 theorems) + in-Coq differential correspondence"
 DESIGN_REF = "DESIGN.md section 7, C01"
 
@@ -614,3 +617,8 @@ DESIGN_REF = "DESIGN.md section 7, C01"
 LEVEL_TEXT += ("; the probability vector of the task draw is regenerated from the source on every run (py2v unit GenSoftmax) and proved to be a distribution "
                "with p_i = exp(c_j - c_i) p_j, hence proportional to exp(-cost) and monotone in the cost")
 TECHNIQUE += " + Coquelicot/Reals proofs on a definition regenerated from source (translator) for the task-draw probabilities"
+LEVEL_TEXT += ("; END-TO-END composition (Props/C01_composed.v): the optimiser / sampler stage of every endpoint is an executable glue model over the C07 and C08 models (DE, Adam, constant-liar loop, qEI run, "
+               "search loop, one-hot samplers incl. rejection with hit-and-run padding, Parzen candidate generation), proved to hand only relaxed-feasible points to the tail for every partial acquisition function and "
+               "every draw stream, so that the random, GP, GP-multitask, Parzen, search and Parzen-search endpoint models return admissible points with the count rule with no hypothesis on the optimisers' output; "
+               "the glue is tied to the real vectorized_acquisition_optimization / constant-liar / qEI routines, the real one-hot domain and samplers and the real draw_samples by an exact in-Coq correspondence")
+TECHNIQUE += " + composition of the C07/C08 models into end-to-end endpoint theorems"
